@@ -42,6 +42,66 @@ def gen_world(rng):
             return w
     return w
 
+VALS = ['0', '0.5', '1', '1.5', '2', '2.125', '3', '5', '10', '12.5', '100']
+
+def gen_table(rng, c, vals):
+    """The expression table as a FILE: 2-5 columns (optional row-name column whose header cell is EMPTY, as
+    pandas / R write it, or named; transcript column; optional extra column; one or two quantification columns
+    with different values), delimiter tab / comma / semicolon / space, transcript and quantification column each
+    selected by NAME or by 1-based NUMBER (all four combinations), header cell with a leading blank, skipped
+    comment lines.  c['exprs'] stays the intended (transcript, value) rows: the ground truth."""
+    delim = rng.choice(['\t', '\t', '\t', ',', ';', ' '])
+    cols = []            # (header cell, kind)
+    if rng.random() < 0.45:
+        cols.append((rng.choice(['', '', 'id']), 'rowname'))
+    txname = rng.choice(['tx', 'Name', 'target_id', 'transcript_id'])
+    if not cols and delim != ' ' and rng.random() < 0.15:
+        txname = ' ' + txname                      # leading blank in the first header cell
+    cols.append((txname, 'tx'))
+    if rng.random() < 0.3:
+        cols.append((rng.choice(['length', 'gene']), 'extra'))
+    qnames = rng.choice([['TPM', 'FPKM'], ['FPKM', 'TPM'], ['tpm'], ['NumReads', 'TPM'], ['TPM', 'NumReads', 'FPKM']])
+    want = rng.choice(qnames)
+    for q in qnames:
+        cols.append((q, 'quant' if q == want else 'other'))
+    if rng.random() < 0.3:
+        rng.shuffle(cols)
+        if delim == ' ' or any(h.startswith(' ') for h, _ in cols[1:]):
+            cols.sort(key=lambda x: 0 if x[1] == 'rowname' else 1)
+    # a leading EMPTY header cell only makes sense in the first position
+    cols.sort(key=lambda x: 0 if x[0] == '' else 1)
+    lines = []
+    for k, (tx, v) in enumerate(c['exprs']):
+        cells = []
+        for h, kind in cols:
+            if kind == 'rowname':
+                cells.append(str(k + 1))
+            elif kind == 'tx':
+                cells.append(tx)
+            elif kind == 'extra':
+                cells.append(str(rng.randint(100, 5000)))
+            elif kind == 'quant':
+                cells.append(v)
+            else:
+                cells.append(rng.choice([x for x in vals if x != v]))
+        lines.append(delim.join(cells))
+    tx_pos = [i for i, (h, k) in enumerate(cols) if k == 'tx'][0]
+    q_pos = [i for i, (h, k) in enumerate(cols) if k == 'quant'][0]
+    tx_by_name, q_by_name = rng.choice([(False, False), (False, False), (True, True), (True, False), (False, True)])
+    header_line = delim.join(h for h, _ in cols)
+    skipped = ['# comment %d' % i for i in range(rng.choice([0, 0, 0, 1, 2]))]
+    if tx_by_name or q_by_name:
+        pre = skipped + [header_line]
+    elif rng.random() < 0.4:
+        skipped = skipped + [header_line]          # all columns by number: the header is the user's --skip-lines business
+        pre = skipped
+    else:
+        pre = skipped
+    c['table'] = dict(lines=pre + lines, delimiter=delim, skip_lines=len(skipped),
+                      tx_id_col=cols[tx_pos][0] if tx_by_name else str(tx_pos + 1),
+                      quant_col=cols[q_pos][0] if q_by_name else str(q_pos + 1),
+                      header=[h for h, _ in cols])
+
 def gen_case(rng, world, enzymes, stream):
     txs = H.world_txs(world)
     enzyme = 'trypsin' if rng.random() < 0.6 else rng.choice(enzymes)
@@ -77,12 +137,7 @@ def gen_case(rng, world, enzymes, stream):
         rng.shuffle(rows)
         c['exprs'] = rows
         c['cutoff'] = float(rng.choice(['0', '0.5', '1', '1.5', '2', '2.125', '3', '5', '10', '50']))
-        if rng.random() < 0.3:
-            # named columns: the header line is consumed only when a column is given by name
-            c['header'] = ['tx', 'tpm']
-            c['tx_id_col'], c['quant_col'] = rng.choice([('tx', 'tpm'), ('tx', '2'), ('1', 'tpm')])
-        if rng.random() < 0.2:
-            c['skip_lines'] = rng.randint(1, 2)
+        gen_table(rng, c, vals)
     else:
         c['exprs'] = None
         c['cutoff'] = None if rng.random() < 0.5 else 1.0
@@ -106,6 +161,7 @@ def gen_case(rng, world, enzymes, stream):
         if m == 'missing_tx' and c['exprs'] is not None:
             tx = rng.choice(txs)[0]
             c['exprs'] = [r for r in c['exprs'] if r[0] != tx]
+            gen_table(rng, c, VALS)
         elif m == 'no_cutoff':
             c['cutoff'] = None
         elif m == 'misc_half':
